@@ -127,7 +127,10 @@ class DependencyCache:
             DependencyCacheType.OTHER: [],
         }
         assert type_ in data, 'Someone forgot to update subkey calculations for a new type'
-        return tuple(data[type_])
+        # The default of dependency(static:) is an option as well: what was
+        # found with one value of it is not what the other value finds.
+        prefer_static = self.__builtins.get_value_for(options.OptionKey('prefer_static'))
+        return (*data[type_], 'prefer_static' if prefer_static else 'prefer_shared')
 
     def __iter__(self) -> T.Iterator['TV_DepID']:
         return self.keys()
